@@ -43,6 +43,7 @@ theorem takeWhile_append_of_all {p : UInt8 → Bool} {name post : Bytes}
 theorem splitFirst_run (mc : UInt8) (hmc : isValidMetaVarByte mc = false) (tr : List Bytes)
     (k : Nat) (hk : 1 ≤ k ∧ k ≤ 3) (name post : Bytes) (hne : name ≠ [])
     (hall : name.all isValidMetaVarByte = true)
+    (hrec : isRecognisedName tr name = true)
     (hpost : ∀ b, post.head? = some b → isValidMetaVarByte b = false) :
     splitFirstMetaVar (List.replicate k mc ++ name ++ post) mc tr =
       some (mkVar tr k name, k + name.length) := by
@@ -61,21 +62,21 @@ theorem splitFirst_run (mc : UInt8) (hmc : isValidMetaVarByte mc = false) (tr : 
       have hd : (List.replicate 1 mc ++ (a :: as) ++ post).drop 1 = (a :: as) ++ post := by
         simp [List.replicate]
       rw [hd, htw]
-      simp [mkVar]
+      simp [mkVar, hrec]
     · have : countSigils mc (List.replicate 2 mc ++ (a :: as) ++ post) = (2, false) := by
         simp [countSigils, List.replicate, ham]
       simp only [splitFirstMetaVar, this]
       have hd : (List.replicate 2 mc ++ (a :: as) ++ post).drop 2 = (a :: as) ++ post := by
         simp [List.replicate]
       rw [hd, htw]
-      simp [mkVar]
+      simp [mkVar, hrec]
     · have : countSigils mc (List.replicate 3 mc ++ (a :: as) ++ post) = (3, true) := by
         simp [countSigils, List.replicate]
       simp only [splitFirstMetaVar, this]
       have hd : (List.replicate 3 mc ++ (a :: as) ++ post).drop 3 = (a :: as) ++ post := by
         simp [List.replicate]
       rw [hd, htw]
-      simp [mkVar]
+      simp [mkVar, hrec]
 
 
 /-- One step of the scanner at a recognised variable: the literal fragment collected so far
@@ -84,12 +85,13 @@ resumes right after the variable's name. -/
 theorem scan_var_step (mc : UInt8) (hmc : isValidMetaVarByte mc = false) (tr : List Bytes)
     (before frag : Bytes) (k : Nat) (hk : 1 ≤ k ∧ k ≤ 3) (name post : Bytes) (hne : name ≠ [])
     (hall : name.all isValidMetaVarByte = true)
+    (hrec : isRecognisedName tr name = true)
     (hpost : ∀ b, post.head? = some b → isValidMetaVarByte b = false) :
     scanTemplate mc tr before frag 0 (List.replicate k mc ++ name ++ post) =
       (frag :: (scanTemplate mc tr (before ++ List.replicate k mc ++ name) [] 0 post).1,
        (mkVar tr k name, getIndentAtOffset before) ::
          (scanTemplate mc tr (before ++ List.replicate k mc ++ name) [] 0 post).2) := by
-  have hsplit := splitFirst_run mc hmc tr k hk name post hne hall hpost
+  have hsplit := splitFirst_run mc hmc tr k hk name post hne hall hrec hpost
   obtain ⟨k', rfl⟩ : ∃ k', k = k' + 1 := ⟨k - 1, by omega⟩
   have hshape : List.replicate (k' + 1) mc ++ name ++ post
       = mc :: (List.replicate k' mc ++ name ++ post) := by
@@ -171,34 +173,6 @@ theorem scan_noVarStart (mc : UInt8) (tr : List Bytes) :
     · simp only [scanTemplate, hc, ↓reduceIte]
       rw [ih _ _ h.tail]; simp
 
-/-- structural facts: one more fragment than variables; every variable name is a non-empty
-run of name bytes -/
-theorem splitFirst_name_valid {mc : UInt8} {tr : List Bytes} {src : Bytes} {v : MetaVarExtract}
-    {n : Nat} (h : splitFirstMetaVar src mc tr = some (v, n)) :
-    v.usedVar ≠ [] ∧ v.usedVar.all isValidMetaVarByte = true ∧ 2 ≤ n := by
-  unfold splitFirstMetaVar at h
-  simp only at h
-  split at h
-  · cases h
-  · next hlen =>
-    have hcs : 1 ≤ (countSigils mc src).1 := by
-      unfold countSigils; split <;> (try split) <;> (try split) <;> simp
-    have hval : ((src.drop (countSigils mc src).1).takeWhile isValidMetaVarByte).all
-        isValidMetaVarByte = true := by
-      exact List.all_takeWhile
-    have hne : (src.drop (countSigils mc src).1).takeWhile isValidMetaVarByte ≠ [] := by
-      intro h0; rw [h0] at hlen; simp at hlen
-    have hl : 1 ≤ ((src.drop (countSigils mc src).1).takeWhile isValidMetaVarByte).length := by
-      cases hh : (src.drop (countSigils mc src).1).takeWhile isValidMetaVarByte with
-      | nil => exact absurd hh hne
-      | cons _ _ => simp
-    simp only [Option.some.injEq, Prod.mk.injEq] at h
-    obtain ⟨hv, hn⟩ := h
-    subst hv hn
-    refine ⟨?_, ?_, by omega⟩ <;> (repeat' split) <;> simp only [MetaVarExtract.usedVar] <;>
-      first | exact hne | exact hval
-
-
 theorem scan_literal_prefix (mc : UInt8) (tr : List Bytes) :
     ∀ (pre before frag rest : Bytes), mc ∉ pre →
       scanTemplate mc tr before frag 0 (pre ++ rest) =
@@ -212,5 +186,171 @@ theorem scan_literal_prefix (mc : UInt8) (tr : List Bytes) :
     have hc : c ≠ mc := fun h' => h.1 h'.symm
     simp only [List.cons_append, scanTemplate, hc, ↓reduceIte]
     rw [ih _ _ _ h.2]; simp
+
+/-- the current scanner is the pinned one restricted to recognised names -/
+theorem splitFirst_eq_pinned (src : Bytes) (mc : UInt8) (tr : List Bytes) :
+    splitFirstMetaVar src mc tr =
+      if isRecognisedName tr ((src.drop (countSigils mc src).1).takeWhile isValidMetaVarByte) = true
+      then splitFirstMetaVarPinned src mc tr else none := by
+  unfold splitFirstMetaVar splitFirstMetaVarPinned
+  simp only
+  cases isRecognisedName tr ((src.drop (countSigils mc src).1).takeWhile isValidMetaVarByte) <;>
+    simp
+
+/-- whatever the current scanner recognises, the pinned one recognised identically -/
+theorem splitFirst_pinned_of_some {src : Bytes} {mc : UInt8} {tr : List Bytes}
+    {r : MetaVarExtract × Nat} (h : splitFirstMetaVar src mc tr = some r) :
+    splitFirstMetaVarPinned src mc tr = some r := by
+  rw [splitFirst_eq_pinned] at h
+  split at h
+  · exact h
+  · cases h
+
+/-- structural facts: every variable name is a non-empty run of name bytes, and it is a
+recognised name (valid first byte, or a declared transformation) -/
+theorem splitFirst_name_valid {mc : UInt8} {tr : List Bytes} {src : Bytes} {v : MetaVarExtract}
+    {n : Nat} (h : splitFirstMetaVar src mc tr = some (v, n)) :
+    v.usedVar ≠ [] ∧ v.usedVar.all isValidMetaVarByte = true ∧ 2 ≤ n ∧
+      isRecognisedName tr v.usedVar = true := by
+  unfold splitFirstMetaVar at h
+  simp only at h
+  split at h
+  · cases h
+  · next hlen =>
+    split at h
+    · cases h
+    · next hrec =>
+      have hrec' : isRecognisedName tr
+          ((src.drop (countSigils mc src).1).takeWhile isValidMetaVarByte) = true := by
+        simpa using hrec
+      have hcs : 1 ≤ (countSigils mc src).1 := by
+        unfold countSigils; split <;> (try split) <;> (try split) <;> simp
+      have hval : ((src.drop (countSigils mc src).1).takeWhile isValidMetaVarByte).all
+          isValidMetaVarByte = true := by
+        exact List.all_takeWhile
+      have hne : (src.drop (countSigils mc src).1).takeWhile isValidMetaVarByte ≠ [] := by
+        intro h0; rw [h0] at hlen; simp at hlen
+      have hl : 1 ≤ ((src.drop (countSigils mc src).1).takeWhile isValidMetaVarByte).length := by
+        cases hh : (src.drop (countSigils mc src).1).takeWhile isValidMetaVarByte with
+        | nil => exact absurd hh hne
+        | cons _ _ => simp
+      simp only [Option.some.injEq, Prod.mk.injEq] at h
+      obtain ⟨hv, hn⟩ := h
+      subst hv hn
+      refine ⟨?_, ?_, by omega, ?_⟩ <;> (repeat' split) <;> simp only [MetaVarExtract.usedVar] <;>
+        first | exact hne | exact hval | exact hrec'
+
+/-- every slot the scanner records comes from a successful `split_first_meta_var` -/
+theorem scan_vars_split (mc : UInt8) (tr : List Bytes) : ∀ (rest before frag : Bytes) (skip : Nat),
+    ∀ x ∈ (scanTemplate mc tr before frag skip rest).2,
+      ∃ src n, splitFirstMetaVar src mc tr = some (x.1, n) := by
+  intro rest
+  induction rest with
+  | nil => intro before frag skip x hx; simp [scanTemplate] at hx
+  | cons c cs ih =>
+    intro before frag skip x hx
+    cases skip with
+    | succ n =>
+      simp only [scanTemplate] at hx
+      exact ih _ _ _ x hx
+    | zero =>
+      simp only [scanTemplate] at hx
+      split at hx
+      · split at hx
+        · rename_i mv skipped hs
+          simp only [List.mem_cons] at hx
+          rcases hx with hx | hx
+          · subst hx
+            exact ⟨_, _, hs⟩
+          · exact ih _ _ _ x hx
+        · exact ih _ _ _ x hx
+      · exact ih _ _ _ x hx
+
+/-- a name byte that is not a valid first byte is a digit, and conversely -/
+theorem digit_iff_valid_not_first (b : UInt8) :
+    (0x30 ≤ b ∧ b ≤ 0x39) ↔ (isValidMetaVarByte b = true ∧ isValidFirstByte b = false) := by
+  simp only [isValidMetaVarByte, isValidFirstByte, Bool.or_eq_true, Bool.and_eq_true,
+    decide_eq_true_eq, beq_iff_eq, Bool.or_eq_false_iff, Bool.and_eq_false_iff,
+    decide_eq_false_iff_not, beq_eq_false_iff_ne, ne_eq, UInt8.le_iff_toNat_le,
+    ← UInt8.toNat_inj]
+  have e1 : (0x30 : UInt8).toNat = 0x30 := by decide
+  have e2 : (0x39 : UInt8).toNat = 0x39 := by decide
+  have e3 : (0x41 : UInt8).toNat = 0x41 := by decide
+  have e4 : (0x5A : UInt8).toNat = 0x5A := by decide
+  have e5 : (0x5F : UInt8).toNat = 0x5F := by decide
+  rw [e1, e2, e3, e4, e5]
+  omega
+
+/-- a candidate name that is not recognised (digit-first and not a transformation) after a
+sigil run: `split_first_meta_var` finds no variable -/
+theorem splitFirst_unrecognised_run (mc : UInt8) (hmc : isValidMetaVarByte mc = false)
+    (tr : List Bytes) (k : Nat) (hk : 1 ≤ k ∧ k ≤ 3) (name post : Bytes) (hne : name ≠ [])
+    (hall : name.all isValidMetaVarByte = true)
+    (hrec : isRecognisedName tr name = false)
+    (hpost : ∀ b, post.head? = some b → isValidMetaVarByte b = false) :
+    splitFirstMetaVar (List.replicate k mc ++ name ++ post) mc tr = none := by
+  cases name with
+  | nil => exact absurd rfl hne
+  | cons a as =>
+    have ha : isValidMetaVarByte a = true := by
+      simp only [List.all_cons, Bool.and_eq_true] at hall; exact hall.1
+    have ham : a ≠ mc := by intro h; subst h; rw [hmc] at ha; cases ha
+    have htw := takeWhile_append_of_all hall hpost
+    have hk' : k = 1 ∨ k = 2 ∨ k = 3 := by omega
+    rcases hk' with rfl | rfl | rfl
+    · have : countSigils mc (List.replicate 1 mc ++ (a :: as) ++ post) = (1, false) := by
+        cases as <;> cases post <;> simp [countSigils, List.replicate, ham]
+      simp only [splitFirstMetaVar, this]
+      have hd : (List.replicate 1 mc ++ (a :: as) ++ post).drop 1 = (a :: as) ++ post := by
+        simp [List.replicate]
+      rw [hd, htw]
+      simp [hrec]
+    · have : countSigils mc (List.replicate 2 mc ++ (a :: as) ++ post) = (2, false) := by
+        simp [countSigils, List.replicate, ham]
+      simp only [splitFirstMetaVar, this]
+      have hd : (List.replicate 2 mc ++ (a :: as) ++ post).drop 2 = (a :: as) ++ post := by
+        simp [List.replicate]
+      rw [hd, htw]
+      simp [hrec]
+    · have : countSigils mc (List.replicate 3 mc ++ (a :: as) ++ post) = (3, true) := by
+        simp [countSigils, List.replicate]
+      simp only [splitFirstMetaVar, this]
+      have hd : (List.replicate 3 mc ++ (a :: as) ++ post).drop 3 = (a :: as) ++ post := by
+        simp [List.replicate]
+      rw [hd, htw]
+      simp [hrec]
+
+/-- One step of the scanner at an unrecognised candidate (`$100`, `$$1A`, `$$$9`): every sigil of
+the run and the whole candidate name go to the literal fragment, no slot is recorded, and
+scanning resumes right after the name. -/
+theorem scan_unrecognised_step (mc : UInt8) (hmc : isValidMetaVarByte mc = false) (tr : List Bytes)
+    (name post : Bytes) (hne : name ≠ [])
+    (hall : name.all isValidMetaVarByte = true)
+    (hrec : isRecognisedName tr name = false)
+    (hpost : ∀ b, post.head? = some b → isValidMetaVarByte b = false) :
+    ∀ (k : Nat), k ≤ 3 → ∀ (before frag : Bytes),
+    scanTemplate mc tr before frag 0 (List.replicate k mc ++ name ++ post) =
+      scanTemplate mc tr (before ++ List.replicate k mc ++ name)
+        (frag ++ List.replicate k mc ++ name) 0 post := by
+  have hnm : mc ∉ name := by
+    intro hm
+    have := List.all_eq_true.mp hall mc hm
+    rw [hmc] at this; cases this
+  intro k
+  induction k with
+  | zero =>
+    intro _ before frag
+    simp only [List.replicate_zero, List.nil_append, List.append_nil]
+    exact scan_literal_prefix mc tr name before frag post hnm
+  | succ k ih =>
+    intro hk before frag
+    have hnone := splitFirst_unrecognised_run mc hmc tr (k + 1) ⟨by omega, hk⟩ name post hne hall hrec hpost
+    have hshape : List.replicate (k + 1) mc ++ name ++ post
+        = mc :: (List.replicate k mc ++ name ++ post) := by
+      simp [List.replicate_succ]
+    rw [hshape] at hnone ⊢
+    simp only [scanTemplate, ↓reduceIte, hnone]
+    rw [ih (by omega)]
+    simp [List.replicate_succ]
 
 end AGV
